@@ -200,6 +200,10 @@ class ExecBase:
             raise Unsupported("store to undeclared field %s (class %s)" % (name, obj.cls))
         k = self.heap_key(name, obj.cls)
         a = self.heap_arr(st, k, s)
+        if isinstance(v, VOpt) and not isinstance(s, TOpt) and not isinstance(s, TRefS):
+            if self.feasible(st, v.sort.is_none(v.t)):
+                raise Unsupported("possibly-None value stored into non-optional field %s" % name)
+            v = mk_val(v.sort.the(v.t), v.sort.inner)
         st.heap[k] = z3.Store(a, obj.t, term_of(v, s))
 
     def alloc(self, st, cqn):
